@@ -440,7 +440,7 @@ func (i InfixExpression) PrettyPrint(out *PrintState) *PrintState {
 		out.Print(" ", i.Literal(), " ")
 	}
 	if i.Right != nil {
-		if needRightParen(i.Token, i.Right) {
+		if needRightParen(i.Token, i.Right) || (sameOpRight(i) && !isIntChain(i.Left, i.Type())) {
 			out.ExpressionPrecedence++ // binary operators are left associative: a-(b-c) isn't a-b-c.
 		}
 		i.Right.PrettyPrint(out)
@@ -463,11 +463,29 @@ func needRightParen(t *token.Token, right Node) bool {
 		return true
 	}
 	switch t.Type() { //nolint:exhaustive // only the associative operators.
-	case token.PLUS, token.ASTERISK, token.BITAND, token.BITOR, token.BITXOR, token.AND, token.OR:
-		return false
+	case token.PLUS, token.ASTERISK, token.BITAND, token.BITOR, token.BITXOR:
+		// Flat is only the same value for integers ([1] + (2 + 3) isn't ([1] + 2) + 3, floats round differently).
+		return !isIntChain(r, t.Type())
 	default:
 		return true
 	}
+}
+
+// sameOpRight tells if the right operand is the same operator (the case needRightParen may print flat).
+func sameOpRight(i InfixExpression) bool {
+	r, ok := i.Right.(*InfixExpression)
+	return ok && r.Type() == i.Type()
+}
+
+// isIntChain tells if the node is an integer literal or the same operator applied to integer chains.
+func isIntChain(n Node, op token.Type) bool {
+	switch n := n.(type) {
+	case *IntegerLiteral:
+		return true
+	case *InfixExpression:
+		return n.Type() == op && n.Right != nil && isIntChain(n.Left, op) && isIntChain(n.Right, op)
+	}
+	return false
 }
 
 type Boolean struct {
